@@ -36,9 +36,14 @@ CW = 'chainables.courier_worker'
 
 
 def run(ctx: Ctx):
-  for r in (r1, r2, r3, r4, r5, r6, r7, r10, r11, r13, r14, r15, r16, r17, r18, r20):
+  for r in (r1, r2, r3, r4, r5, r6, r7, r10, r11, r13, r14, r15, r16, r17, r18, r20, r22):
     ctx.guard(r)
   from mlmverif.props import c03
+  from mlmverif.props import c14 as _c14
+  ctx.include('R-C16-21', '"delivers exactly one final aggregate result": a worker iterator that returned NOTHING (a stage without'
+              ' aggregation) must end on the master with no return value, not with `None` — every conversion of an exhaustion'
+              ' signal passes `*e.args` on (R-C14-16); `StopAsyncIteration(e.value)` records one `None` per worker and the'
+              ' stage\'s merge step then fails its "is an AggregateResult" assertion in a fault-free run', _c14.r16, min_instances=3)
   from mlmverif.props import c15
   ctx.include('R-C16-19', '"the same multiset of output batches": a remote iteration batch is collected by ONE blocking batch read of'
               ' the prefetch queue, which hands over what it already dequeued when the shard ends in the middle of the batch'
@@ -818,11 +823,59 @@ def r20(ctx: Ctx):
   ctx.floor(rule, 2, n)
 
 
+def r22(ctx: Ctx):
+  rule = 'R-C16-22'
+  ctx.rule(rule, '"the same multiset of output batches and the same aggregate result": a prefetching server holds ONE generator, so a'
+           ' worker iterates one shard at a time. In WorkerPool.iterate the candidates for the next shard exclude the'
+           ' workers that are still running one — the candidate list is a set difference with `running_workers`, or every'
+           ' condition that admits a worker implies `worker not in running_workers` (a conjunct, never one arm of an `or`).'
+           ' Handing a busy worker another shard replaces the generator it is still being asked for: batches are lost,'
+           ' repeated, and the shard states mix')
+  fi = ctx.repo.func('chainables.courier_worker', 'WorkerPool.iterate')
+  n = 0
+  for x in ast.walk(fi.node):
+    tgt = x.targets[0] if isinstance(x, ast.Assign) else x.target if isinstance(x, ast.AnnAssign) else None
+    if tgt is None or not (isinstance(tgt, ast.Name) and tgt.id == 'workers') or x.value is None:
+      continue
+    if not any(isinstance(y, ast.Attribute) and y.attr == 'idle_workers' for y in ast.walk(x.value)):
+      continue
+    n += 1
+    v = x.value
+    ok = False
+    for y in ast.walk(v):
+      if isinstance(y, ast.BinOp) and isinstance(y.op, ast.Sub) and 'running_workers' in unparse(y.right):
+        ok = True
+      if isinstance(y, (ast.ListComp, ast.SetComp, ast.GeneratorExp)):
+        for g_ in y.generators:
+          for cond in g_.ifs:
+            conj = cond.values if isinstance(cond, ast.BoolOp) and isinstance(cond.op, ast.And) else [cond]
+            if any(isinstance(c_, ast.Compare) and isinstance(c_.ops[0], ast.NotIn) and 'running_workers' in unparse(c_.comparators[0])
+                   for c_ in conj):
+              ok = True
+    what = 'WorkerPool.iterate: a worker that still runs a shard is no candidate for the next one'
+    if ok:
+      ctx.ok(rule, fi, what, x)
+    else:
+      ctx.fail(rule, fi, what,
+               f'`{unparse(x)[:90]}` can admit a worker of `running_workers`: its server\'s single generator is replaced by the new'
+               ' shard while the old one is still being polled — missing and duplicated batches, a wrong aggregate, no error',
+               node=x)
+  ctx.floor(rule, 1, n)
+
+
 from mlmverif.selfcheck import B, OK  # noqa: E402
 
 _T = 'chainables/transform.py'
 _O = 'chainables/orchestrate.py'
 VARIANTS = [
+    B('busy-worker-with-spare-parallelism-gets-a-shard', 'chainables/courier_worker.py',
+      "        workers: list[Worker] = list(set(self.idle_workers()) - running_workers)",
+      "        workers: list[Worker] = [w for w in set(self.idle_workers()) if w not in running_workers or w.max_parallelism > 1]", 'R-C16-22'),
+    OK('candidates-by-comprehension', 'chainables/courier_worker.py',
+       "        workers: list[Worker] = list(set(self.idle_workers()) - running_workers)",
+       "        workers: list[Worker] = [w for w in set(self.idle_workers()) if w not in running_workers]"),
+    B('remote-end-without-value-becomes-none', 'utils/courier_utils.py',
+      "      raise StopAsyncIteration(*e.args) from e\n    except Exception as e:  # pylint: disable=broad-exception-caught\n      if is_timeout(e):", "      raise StopAsyncIteration(e.value) from e\n    except Exception as e:  # pylint: disable=broad-exception-caught\n      if is_timeout(e):", 'R-C16-21'),
     B('revert-equality-helper-returns-the-raw-comparison', 'chainables/transform.py',
       "    # The comparison of array-likes is not a truth value.\n    return bool(a == b)\n", "    return a == b\n", 'R-C16-20'),
     OK('equality-helper-via-operator-eq', 'chainables/transform.py',
